@@ -142,4 +142,47 @@ def fmtRun2d (r : Nat) : String :=
   let (n, m, p) := nmpOfRun2d r
   s!"v{n}_{m}_{p}"
 
+/-! ### constant tables
+The shift / mask / range constants in one place.  `harness/xlate/c06_consts.py` extracts the same
+tables from the Python source on every run and `Gen/C06Consts.lean` checks them equal to these;
+`Props/C06.lean` proves that the model functions above are exactly the table-driven ones. -/
+
+def objShiftTable : List (String × Nat) :=
+  [("skyversion", 59), ("rerun", 48), ("run", 32), ("camcol", 29), ("firstfield", 28), ("field", 16), ("objnum", 0)]
+def objRangeTable : List (String × Int × Int) :=
+  [("firstfield", 0, 2), ("skyversion", 0, 16), ("rerun", 0, 2048), ("run", 0, 65536), ("camcol", 1, 7),
+   ("field", 0, 4096), ("objnum", 0, 65536)]
+def specShiftTable : List (String × Nat) :=
+  [("plate", 50), ("fiber", 38), ("mjd", 24), ("run2d", 10), ("line", 0), ("index", 0)]
+def specRangeTable : List (String × Int × Int) :=
+  [("plate", 0, 16384), ("fiber", 0, 4096), ("mjd", 0, 16384), ("run2d", 0, 16384), ("line", 0, 1024), ("index", 0, 1024)]
+def objUnpackTable : List (String × Nat × Nat × Nat) :=
+  [("skyversion", 59, 15, 0), ("rerun", 48, 2047, 0), ("run", 32, 65535, 0), ("camcol", 29, 7, 0),
+   ("firstfield", 28, 1, 0), ("frame", 16, 4095, 0), ("id", 0, 65535, 0)]
+def specUnpackTable : List (String × Nat × Nat × Nat) :=
+  [("plate", 50, 16383, 0), ("fiber", 38, 4095, 0), ("mjd", 24, 16383, 50000), ("run2d", 10, 16383, 0), ("line", 0, 1023, 0)]
+def mjdOffset : Int := 50000
+
+def val (vals : List (String × Int)) (k : String) : Int := (vals.lookup k).getD 0
+
+/-- `(a << s1) | (b << s2) | ...` over a shift table -/
+def packByTable (tab : List (String × Nat)) (vals : List (String × Int)) : Nat :=
+  tab.foldl (fun acc e => acc ||| ((val vals e.1).toNat <<< e.2)) 0
+
+/-- every `(x < lo) | (x >= hi)` test of a range table passes -/
+def okByTable (tab : List (String × Int × Int)) (vals : List (String × Int)) : Bool :=
+  tab.all (fun e => inR (val vals e.1) e.2.1 e.2.2)
+
+/-- `np.bitwise_and(v >> shift, mask) + offset` per row of an unpack table -/
+def unpackByTable (tab : List (String × Nat × Nat × Nat)) (v : Nat) : List (String × Int) :=
+  tab.map (fun e => (e.1, (((v >>> e.2.1) &&& e.2.2.1 : Nat) : Int) + (e.2.2.2 : Nat)))
+
+def ObjF.vals (f : ObjF) : List (String × Int) :=
+  [("skyversion", f.sv), ("rerun", f.rerun), ("run", f.run), ("camcol", f.camcol), ("firstfield", f.ff),
+   ("field", f.field), ("objnum", f.obj)]
+
+/-- what `sdss_specobjid` range-checks and shifts: MJD already minus the offset, `line` and `index` separately -/
+def specVals (plate fiber mjd run2d line index : Int) : List (String × Int) :=
+  [("plate", plate), ("fiber", fiber), ("mjd", mjd - mjdOffset), ("run2d", run2d), ("line", line), ("index", index)]
+
 end PydlVerif.Ids
